@@ -7,6 +7,8 @@ package route
 // by the real Target.AccessDeniedHTTP / AccessDeniedTCP / Authorized.
 
 import (
+	"io"
+	"log"
 	"bytes"
 	"encoding/json"
 	"fmt"
@@ -85,6 +87,8 @@ func (ts *c12Targets) target(cc *verifx.C12Conc, c *verifx.C12Case) (*Target, st
 }
 
 func TestVerifC12Route(t *testing.T) {
+	log.SetOutput(io.Discard) // fabio logs every rule comparison; the verdicts do not depend on it
+
 	concs := []*verifx.C12Conc{verifx.C12Lab, verifx.C12Edge}
 	for _, cc := range append(concs, verifx.C12Loop) {
 		if err := cc.CheckConc(); err != nil {
@@ -142,7 +146,7 @@ func TestVerifC12Route(t *testing.T) {
 				return cc.Addr[c.Peer]
 			}
 			if c.Proto == "tcp" {
-				decide := func(_ string, strip bool) (denied bool, p any, stack string) {
+				decide := func(_ string, strip, _ bool) (denied bool, p any, stack string) {
 					p, stack = verifx.Safely(func() {
 						denied = tgt.AccessDeniedTCP(c12Conn{remote: c12TCPAddr(peer(strip), port)})
 					})
@@ -153,17 +157,24 @@ func TestVerifC12Route(t *testing.T) {
 				continue
 			}
 			styles := []string{verifx.C12XffStyles[int(n%2)]}
-			if len(c.Xff) >= 2 {
+			if n := len(c.Chain()); n >= 2 {
 				styles = append(styles, "lines")
+				if n > 7 {
+					styles = append(styles, "mixed")
+				}
 			}
 			if c.XffStyle != "" {
 				styles = []string{c.XffStyle}
 			}
 			for _, style := range styles {
-				decide := func(style string, strip bool) (denied bool, p any, stack string) {
+				decide := func(style string, strip, noFill bool) (denied bool, p any, stack string) {
 					req := httptest.NewRequest("GET", "http://c12.test/c12/x", nil)
 					req.RemoteAddr = verifx.C12HostPort(peer(strip), port)
-					cc.SetXFF(req.Header, c.Xff, style, strip)
+					chain := c.Chain()
+					if noFill {
+						chain = c.Xff
+					}
+					cc.SetXFF(req.Header, chain, style, strip)
 					p, stack = verifx.Safely(func() { denied = tgt.AccessDeniedHTTP(req) })
 					atomic.AddInt64(&accessEv, 1)
 					return
@@ -192,14 +203,14 @@ func TestVerifC12Route(t *testing.T) {
 			}
 		}
 		atomic.AddInt64(&ran, 1)
-		if len(c.Allow)+len(c.Deny) > 0 && (len(c.Xff) > 0 || c.Proto == "tcp") {
+		if len(c.Allow)+len(c.Deny) > 0 && (len(c.Chain()) > 0 || c.Proto == "tcp") {
 			atomic.AddInt64(&nontrivial, 1)
 		}
 		if n%4999 == 11 {
 			sampleMu.Lock()
 			if len(samples) < 4 {
-				samples = append(samples, fmt.Sprintf("opts %q peer %s xff %v -> may=%v must=%v", verifx.C12Lab.Opts(c.Allow, c.Deny, c.Scheme),
-					verifx.C12Lab.Addr[c.Peer], c.Xff, c.May, c.Must))
+				samples = append(samples, fmt.Sprintf("opts %q peer %s xff %s -> may=%v must=%v", verifx.C12Lab.Opts(c.Allow, c.Deny, c.Scheme),
+					verifx.C12Lab.Addr[c.Peer], c.ChainText(verifx.C12Lab), c.May, c.Must))
 			}
 			sampleMu.Unlock()
 		}
@@ -240,21 +251,17 @@ func TestVerifC12Route(t *testing.T) {
 		"distinct_nontrivial": nontrivial, "oracle_disagreements": oracle, "samples": samples})
 }
 
-func c12Judge(c *verifx.C12Case, cc *verifx.C12Conc, sub, style string, decide func(style string, strip bool) (bool, any, string)) {
-	denied, p, stack := decide(style, false)
+func c12Judge(c *verifx.C12Case, cc *verifx.C12Conc, sub, style string, decide func(style string, strip, noFill bool) (bool, any, string)) {
+	denied, p, stack := decide(style, false, false)
 	cc2 := *c
 	cc2.Conc, cc2.XffStyle = cc.Name, style
-	var xs []string
-	for _, x := range c.Xff {
-		xs = append(xs, cc.Addr[x])
-	}
-	desc := fmt.Sprintf("opts %q, peer %s, X-Forwarded-For %v (%s)", cc.Opts(c.Allow, c.Deny, ""), cc.Addr[c.Peer], xs, style)
+	desc := fmt.Sprintf("opts %q, peer %s, X-Forwarded-For %s (%s)", cc.Opts(c.Allow, c.Deny, ""), cc.Addr[c.Peer], c.ChainText(cc), style)
 	switch {
 	case p != nil:
 		verifx.Fail(cc2, c.Features(sub, "panic", "rules:"+c.CfgClass()), "%s: panic: %v\n%s", desc, p, stack)
 	case !denied && !c.May:
-		cause := c.Cause(style, func(st string, strip bool) (bool, bool) {
-			d, p, _ := decide(st, strip)
+		cause := c.Cause(style, func(st string, strip, noFill bool) (bool, bool) {
+			d, p, _ := decide(st, strip, noFill)
 			return d, p == nil
 		})
 		verifx.Fail(cc2, c.Features(sub, "admitted-must-deny", cause),
